@@ -29,7 +29,7 @@ RULE = (
     "difference; distinct = (task, policy, range kind, removed?, tp?, fp?, fn?, tn?, n_frames class)"
 )
 ASSUMPTIONS = ["objects and ego have yaw-only rotations", "no decision within 1e-6 of a boundary in the ego-frame description (otherwise skipped)"]
-DECIDING = ["C07.interpolated_pairs_compared", "C07.pairs_compared", "C07.frames_compared", "C07.pairs_with_removed_object", "C07.pairs_with_tp", "C07.tracking_pairs", "C07.scene_compared", "C07.no_ego_pose_runs_compared", "C07.follower_pairs_compared", "C07.twin_pairs_compared"]
+DECIDING = ["C07.interpolated_pairs_compared", "C07.pairs_compared", "C07.frames_compared", "C07.pairs_with_removed_object", "C07.pairs_with_tp", "C07.tracking_pairs", "C07.scene_compared", "C07.no_ego_pose_runs_compared", "C07.follower_pairs_compared", "C07.twin_pairs_compared", "C07.integer_map_estimates"]
 JOBS = {"quick": 4, "thorough": 14}
 TOL = 1e-6
 
@@ -39,6 +39,7 @@ def run(ctx: Ctx) -> None:
     interpolated_pairs(ctx, 50 if ctx.quick else 8000)
     follower_pairs(ctx, 24 if ctx.quick else 3000)
     twin_pairs(ctx, 16 if ctx.quick else 2000)
+    integer_map_pairs(ctx, 12 if ctx.quick else 1500)
     for idx in ctx.indices("pairs", n):
         r = ctx.rng("pairs", idx)
         task = ["detection", "tracking", "detection", "fp_validation"][idx % 4]
@@ -218,6 +219,59 @@ def twin_pairs(ctx: Ctx, n: int) -> None:
                     ctx.violation(f"C07/ego_and_map_runs_differ:twins:{part}", dict(scn.info, first_difference=d[:400]), tap="comparator")
                     break
             ctx.case(("twins", n_groups, len(a["fn"]) > 0), nontrivial=len(a["fn"]) > 0 and len(a["tp"]) > 0)
+
+
+def integer_map_pairs(ctx: Ctx, n: int) -> None:
+    """Estimates whose map coordinates lie on the integer grid and are given as Python ints (ego pose with a non-trivial
+    yaw and non-integer translation, so the ego-relative coordinates are not integers)."""
+    for idx in ctx.indices("integer_map", n):
+        r = ctx.rng("integer_map", idx)
+        ego_pos = (r.uniform(-500, 500), r.uniform(-500, 500), r.uniform(-1, 1))
+        ego_yaw = r.uniform(-math.pi, math.pi)
+        t0 = 1_600_000_000_000_000 + r.randint(0, 10**9)
+        fr = Frame(t=t0, ego_pos=ego_pos, ego_yaw=ego_yaw)
+        c, s_ = math.cos(-ego_yaw), math.sin(-ego_yaw)
+
+        def ego_of(P):
+            dx, dy = P[0] - ego_pos[0], P[1] - ego_pos[1]
+            return (c * dx - s_ * dy, s_ * dx + c * dy, P[2] - ego_pos[2])
+
+        R = r.choice([20.0, 35.0])
+        for k in range(r.randint(3, 7)):
+            P = (int(round(ego_pos[0] + r.uniform(-1.3, 1.3) * R)), int(round(ego_pos[1] + r.uniform(-1.3, 1.3) * R)), int(round(ego_pos[2])))
+            Pe = P  # the estimate sits on the grid point, the annotated object a few decimetres off it
+            yaw_map = r.uniform(-math.pi, math.pi)
+            g, e = ego_of((P[0] + r.uniform(-0.5, 0.5), P[1] + r.uniform(-0.5, 0.5), P[2])), ego_of(Pe)
+            yaw_ego = G.wrap_pi(yaw_map - ego_yaw)
+            fr.gts.append(dict(key=f"g{k}", category="car", canon="car", box=(g[0], g[1], g[2], yaw_ego, 1.9, 4.5, 1.6), npts=30, vis="full", attrs=[]))
+            fr.ests.append(dict(key=f"e{k}", name="car", box=(e[0], e[1], e[2], yaw_ego, 1.9, 4.5, 1.6), score=round(0.95 - 0.05 * k, 3), uuid=f"t{k}", int_map=True))
+        ring = r.random() < 0.5
+        cfg = {"evaluation_task": "detection", "target_labels": ["car"], "label_prefix": "autoware", "merge_similar_labels": False, "matching_label_policy": "DEFAULT", "min_point_numbers": [0], "center_distance_thresholds": [[1.2]], "plane_distance_thresholds": [[1.6]], "iou_2d_thresholds": [[0.3]], "iou_3d_thresholds": [[0.3]]}
+        crit: Dict[str, Any] = {"target_labels": ["car"]}
+        if ring:
+            cfg.update(max_distance=R * 1.5, min_distance=0.0)
+            crit.update(max_distance_list=[R], min_distance_list=[0.0])
+        else:
+            cfg.update(max_x_position=R * 1.5, max_y_position=R * 1.5)
+            crit.update(max_x_position_list=[R], max_y_position_list=[R])
+        scn = Scenario(task="detection", frames=[fr], cfg=cfg, critical=[crit], passfail=[{"target_labels": ["car"], "matching_threshold_list": [1.6]}], info=dict(task="detection", n_frames=1, ring=ring, R=R))
+        ctx.begin_case("integer_map", idx, **scn.info)
+        if compare.scenario_margin(scn) < 1e-4:
+            ctx.count("C07.skipped_boundary")
+            continue
+        with ctx.case_guard("integer_map"):
+            with D.DatasetDir(scn.scene_spec()) as ds:
+                run_e, run_m = Run(scn, "base_link", ds), Run(scn, "map", ds)
+                a, b = compare.frame_digest(run_e.add(0)), compare.frame_digest(run_m.add(0))
+                n_int = sum(1 for o in run_m.estimates[0] if all(isinstance(v, int) for v in o.state.position))
+            ctx.count("C07.integer_map_pairs_compared")
+            ctx.count("C07.integer_map_estimates", n_int)
+            for part in ("results", "critical_gt", "tp", "fp", "fn", "tn", "metrics", "ranges"):
+                d = compare.diff(a[part], b[part], 1e-5)
+                if d is not None:
+                    ctx.violation(f"C07/ego_and_map_runs_differ:integer_map:{part}", dict(scn.info, first_difference=d[:400]), tap="comparator")
+                    break
+            ctx.case(("integer_map", ring, min(len(a["tp"]), 3)), nontrivial=n_int > 0)
 
 
 def interpolated_pairs(ctx: Ctx, n: int) -> None:
